@@ -218,6 +218,89 @@ def gauss_stage_pairs(run, n):
                 break
 
 
+def margin_outlier_probe(case):
+    """run the case through the client with a recorder at `_fit_outlier_detection_model`: the ids of the frame the *margin* outlier
+    model is fitted on, their absolute residuals and the cut-off (None when that model does not run)"""
+    C.use_repo()
+    from elexmodel.handlers.data.CombinedData import CombinedDataHandler
+    from elexsolver.QuantileRegressionSolver import QuantileRegressionSolver as Q2
+
+    seen = {}
+    orig = CombinedDataHandler._fit_outlier_detection_model
+
+    def rec(self_, reporting_units, response_variable, z):
+        preds = []
+        op = Q2.predict
+
+        def pred_rec(s_, x, *a, **kw):
+            out = op(s_, x, *a, **kw)
+            preds.append(np.asarray(out, dtype=float).ravel().copy())
+            return out
+
+        Q2.predict = pred_rec
+        try:
+            got = orig(self_, reporting_units, response_variable, z)
+        finally:
+            Q2.predict = op
+        if response_variable == "results_normalized_margin" and preds:
+            y = reporting_units[response_variable].to_numpy(dtype=float)
+            ar = np.abs(y - preds[0][: len(y)])
+            seen.update(ids=list(reporting_units["geographic_unit_fips"]), ar=ar, thr=float(ar.mean() + z * ar.std()))
+        return got
+
+    CombinedDataHandler._fit_outlier_detection_model = rec
+    try:
+        A.run_case(case)
+    finally:
+        CombinedDataHandler._fit_outlier_detection_model = orig
+    return seen or None
+
+
+def tune_to_cutoff(rng, case, caseB, uid):
+    """search support: when the perturbed (excluded) unit sits in the frame the margin outlier model is fitted on, its count moves the
+    cut-off; move the margin of one ordinary reporting unit (same total) until it is flagged under the lower of the two cut-offs by a
+    hair, so that the pair of runs differs in which units are modelled.  Returns the tuned (case, caseB) or None (nothing to tune: the
+    unit is not in that frame, which is what the rules demand)."""
+    pa, pb = margin_outlier_probe(case), margin_outlier_probe(caseB)
+    if not pa or not pb or uid not in pa["ids"] or uid not in pb["ids"] or pa["thr"] == pb["thr"]:
+        return None
+    low_is_a = pa["thr"] < pb["thr"]
+    e = case["election"]
+    cands = [u for u, a in zip(pa["ids"], pa["ar"]) if u != uid and e.roles.get(u) == "reporting" and a < min(pa["thr"], pb["thr"])]
+    if not cands:
+        return None
+    x = max(cands, key=lambda u: pa["ar"][pa["ids"].index(u)])
+
+    def shifted(c, t, sign):
+        c2 = dict(c)
+        e2 = copy.deepcopy(c["election"])
+        i = e2.cur.index[e2.cur["geographic_unit_fips"] == x][0]
+        d, g = int(e2.cur.loc[i, "results_dem"]), int(e2.cur.loc[i, "results_gop"])
+        e2.cur.loc[i, "results_dem"], e2.cur.loc[i, "results_gop"] = d + sign * t, g - sign * t
+        c2["election"] = e2
+        return c2
+
+    i0 = e.cur.index[e.cur["geographic_unit_fips"] == x][0]
+    d0, g0 = int(e.cur.loc[i0, "results_dem"]), int(e.cur.loc[i0, "results_gop"])
+    for sign, room in ((1, g0), (-1, d0)):
+        lo, hi, best = 0, room, None
+        for _ in range(24):
+            mid = (lo + hi) // 2
+            p = margin_outlier_probe(shifted(case if low_is_a else caseB, mid, sign))
+            if not p or x not in p["ids"]:
+                break
+            gap = p["ar"][p["ids"].index(x)] - p["thr"]
+            if gap > 0:
+                best, hi = mid, mid
+            else:
+                lo = mid
+            if hi - lo <= 1:
+                break
+        if best is not None:
+            return shifted(case, best, sign), shifted(caseB, best, sign)
+    return None
+
+
 def outlier_stream(run, n):
     """default outlier models on: the count of a blocklisted reporting unit must not change which other units are flagged"""
     rng = run.rng
@@ -241,6 +324,16 @@ def outlier_stream(run, n):
             continue
         uid = rng.choice(ids)
         caseB, mode = perturb(rng, case, uid, role)
+        if zb:
+            # lopsided replacement: the unit's own margin residual changes a lot
+            i = caseB["election"].cur.index[caseB["election"].cur["geographic_unit_fips"] == uid][0]
+            caseB["election"].cur.loc[i, ["results_dem", "results_gop", "results_turnout"]] = [3, 1997, 2011]
+            mode = "lopsided"
+            tuned = tune_to_cutoff(rng, case, caseB, uid)
+            if tuned is not None:
+                case, caseB = tuned
+                mode = "lopsided, another unit tuned to the cut-off of the margin outlier model"
+                run.count("outlier stream: tuned to the cut-off")
         ra, rb = A.run_case(case), A.run_case(caseB)
         L = A.light(case)
         L.update({"perturbed_unit": uid, "kind": role + " (outlier models on)", "replacement": mode})
